@@ -521,97 +521,55 @@ func mergePaging(w *load.World, c *core.Collector, props []string) {
 		lb, ok := lc.Call.Value.(*ssa.Builtin)
 		return ok && lb.Name() == "len" && isSearchResultSlice(lc.Call.Args[0].Type())
 	}
-	clamp := func(v ssa.Value) (inner ssa.Value, clamped bool) {
-		// `if x > len(results) { x = len(results) }`: a phi of x and len chosen by that very test
-		if phi, ok := v.(*ssa.Phi); ok && len(phi.Edges) == 2 {
-			for i := 0; i < 2; i++ {
-				if !isLenRes(phi.Edges[i]) {
-					continue
+	hasLabelMain := func(v ssa.Value, l string) bool { return ssax.Prov(v)[l] || deepHas(w, v, l) }
+	probs := pageBounds(f, page.Low, page.High, isLenRes, hasLabelMain)
+	// the bounds may be computed by a helper that is handed the offset, the limit and the number of
+	// results: the same requirements, read inside the helper in terms of its parameters
+	if len(probs) > 0 {
+		lx, ok1 := page.Low.(*ssa.Extract)
+		hx, ok2 := page.High.(*ssa.Extract)
+		if ok1 && ok2 && lx.Tuple == hx.Tuple {
+			if hc, ok := lx.Tuple.(*ssa.Call); ok {
+				if h := hc.Call.StaticCallee(); h != nil && ssax.InModule(h) && len(h.Blocks) > 0 {
+					argOf := func(v ssa.Value) ssa.Value {
+						if prm, ok := v.(*ssa.Parameter); ok {
+							for i, q := range h.Params {
+								if q == prm && i < len(hc.Call.Args) {
+									return hc.Call.Args[i]
+								}
+							}
+						}
+						return nil
+					}
+					isLenH := func(v ssa.Value) bool {
+						a := argOf(v)
+						return a != nil && isLenRes(a)
+					}
+					hasLabelH := func(v ssa.Value, l string) bool {
+						for k := range ssax.Prov(v) {
+							if !strings.HasPrefix(k, "param:") {
+								continue
+							}
+							for i, q := range h.Params {
+								if "param:"+q.Name() == k && i < len(hc.Call.Args) && hasLabelMain(hc.Call.Args[i], l) {
+									return true
+								}
+							}
+						}
+						return false
+					}
+					var rets []*ssa.Return
+					for _, hb := range h.Blocks {
+						if r, ok := hb.Instrs[len(hb.Instrs)-1].(*ssa.Return); ok {
+							rets = append(rets, r)
+						}
+					}
+					if len(rets) == 1 && lx.Index < len(rets[0].Results) && hx.Index < len(rets[0].Results) {
+						probs = pageBounds(h, ssax.ReturnOperand(rets[0], lx.Index), ssax.ReturnOperand(rets[0], hx.Index), isLenH, hasLabelH)
+					}
 				}
-				x := phi.Edges[1-i]
-				via := phi.Block().Preds[i] // the block that assigned len
-				for _, tb := range f.Blocks {
-					ifi, ok := tb.Instrs[len(tb.Instrs)-1].(*ssa.If)
-					if !ok {
-						continue
-					}
-					bo, ok := ifi.Cond.(*ssa.BinOp)
-					if !ok {
-						continue
-					}
-					over := -1
-					switch {
-					case (bo.Op == token.GTR || bo.Op == token.GEQ) && bo.X == x && isLenRes(bo.Y), (bo.Op == token.LSS || bo.Op == token.LEQ) && isLenRes(bo.X) && bo.Y == x:
-						over = 0
-					case (bo.Op == token.LEQ || bo.Op == token.LSS) && bo.X == x && isLenRes(bo.Y), (bo.Op == token.GEQ || bo.Op == token.GTR) && isLenRes(bo.X) && bo.Y == x:
-						over = 1
-					}
-					if over >= 0 && (tb.Succs[over] == via || via == tb && tb.Succs[over] == phi.Block()) {
-						return x, true
-					}
-				}
 			}
 		}
-		call, ok := v.(*ssa.Call)
-		if !ok {
-			return v, false
-		}
-		bi, ok := call.Call.Value.(*ssa.Builtin)
-		if !ok || bi.Name() != "min" || len(call.Call.Args) != 2 {
-			return v, false
-		}
-		isLen := func(x ssa.Value) bool {
-			lc, ok := x.(*ssa.Call)
-			if !ok {
-				return false
-			}
-			lb, ok := lc.Call.Value.(*ssa.Builtin)
-			return ok && lb.Name() == "len" && isSearchResultSlice(lc.Call.Args[0].Type())
-		}
-		switch {
-		case isLen(call.Call.Args[1]):
-			return call.Call.Args[0], true
-		case isLen(call.Call.Args[0]):
-			return call.Call.Args[1], true
-		}
-		return v, false
-	}
-	lo, loC := clamp(page.Low)
-	hi, hiC := clamp(page.High)
-	var probs []string
-	if !loC || !hiC {
-		probs = append(probs, "a bound of the page is not clamped to the number of results (min(…, len)): an offset beyond the results panics")
-	}
-	olo, ohi := ssax.Prov(lo), ssax.Prov(hi)
-	if deepHas(w, lo, "field:Offset") {
-		olo["field:Offset"] = true
-	}
-	if deepHas(w, lo, "field:Limit") {
-		olo["field:Limit"] = true
-	}
-	if _, arith := lo.(*ssa.BinOp); arith || !olo["field:Offset"] || olo["field:Limit"] {
-		probs = append(probs, "the page does not start at the requested offset")
-	}
-	okHi := false
-	if bo, ok := hi.(*ssa.BinOp); ok && bo.Op == token.ADD {
-		ox, oy := ssax.Prov(bo.X), ssax.Prov(bo.Y)
-		for _, l := range []string{"field:Offset", "field:Limit"} {
-			if deepHas(w, bo.X, l) {
-				ox[l] = true
-			}
-			if deepHas(w, bo.Y, l) {
-				oy[l] = true
-			}
-		}
-		_, ax := bo.X.(*ssa.BinOp)
-		_, ay := bo.Y.(*ssa.BinOp)
-		if !ax && !ay && ((ox["field:Offset"] && oy["field:Limit"]) || (oy["field:Offset"] && ox["field:Limit"])) {
-			okHi = true
-		}
-	}
-	_ = ohi
-	if !okHi {
-		probs = append(probs, "the page does not end at offset + limit")
 	}
 	if len(probs) > 0 {
 		c.Add("MERGE", "paging", core.Violation, w.At(page), strings.Join(probs, "; "), props...)
@@ -1031,4 +989,79 @@ func phiCondEdges(f *ssa.Function, base []ssax.Edge, leaf func(ssa.Value) bool) 
 		out = append(out, ssax.Edge{From: b, Succ: s})
 	}
 	return out
+}
+
+// pageBounds: the problems with results[lo:hi] as a page: both bounds clamped to the number of
+// results (min(x, len) or the if-form), lo the offset, hi offset + limit. isLen recognises the
+// number of results, hasLabel the request's Offset and Limit, in the function fn the bounds are
+// computed in.
+func pageBounds(fn *ssa.Function, low, high ssa.Value, isLen func(ssa.Value) bool, hasLabel func(ssa.Value, string) bool) []string {
+	clamp := func(v ssa.Value) (inner ssa.Value, clamped bool) {
+		// `if x > len(results) { x = len(results) }`: a phi of x and len chosen by that very test
+		if phi, ok := v.(*ssa.Phi); ok && len(phi.Edges) == 2 {
+			for i := 0; i < 2; i++ {
+				if !isLen(phi.Edges[i]) {
+					continue
+				}
+				x := phi.Edges[1-i]
+				via := phi.Block().Preds[i] // the block that assigned len
+				for _, tb := range fn.Blocks {
+					ifi, ok := tb.Instrs[len(tb.Instrs)-1].(*ssa.If)
+					if !ok {
+						continue
+					}
+					bo, ok := ifi.Cond.(*ssa.BinOp)
+					if !ok {
+						continue
+					}
+					over := -1
+					switch {
+					case (bo.Op == token.GTR || bo.Op == token.GEQ) && bo.X == x && isLen(bo.Y), (bo.Op == token.LSS || bo.Op == token.LEQ) && isLen(bo.X) && bo.Y == x:
+						over = 0
+					case (bo.Op == token.LEQ || bo.Op == token.LSS) && bo.X == x && isLen(bo.Y), (bo.Op == token.GEQ || bo.Op == token.GTR) && isLen(bo.X) && bo.Y == x:
+						over = 1
+					}
+					if over >= 0 && (tb.Succs[over] == via || via == tb && tb.Succs[over] == phi.Block()) {
+						return x, true
+					}
+				}
+			}
+		}
+		call, ok := v.(*ssa.Call)
+		if !ok {
+			return v, false
+		}
+		bi, ok := call.Call.Value.(*ssa.Builtin)
+		if !ok || bi.Name() != "min" || len(call.Call.Args) != 2 {
+			return v, false
+		}
+		switch {
+		case isLen(call.Call.Args[1]):
+			return call.Call.Args[0], true
+		case isLen(call.Call.Args[0]):
+			return call.Call.Args[1], true
+		}
+		return v, false
+	}
+	lo, loC := clamp(low)
+	hi, hiC := clamp(high)
+	var probs []string
+	if !loC || !hiC {
+		probs = append(probs, "a bound of the page is not clamped to the number of results (min(…, len)): an offset beyond the results panics")
+	}
+	if _, arith := lo.(*ssa.BinOp); arith || !hasLabel(lo, "field:Offset") || hasLabel(lo, "field:Limit") {
+		probs = append(probs, "the page does not start at the requested offset")
+	}
+	okHi := false
+	if bo, ok := hi.(*ssa.BinOp); ok && bo.Op == token.ADD {
+		_, ax := bo.X.(*ssa.BinOp)
+		_, ay := bo.Y.(*ssa.BinOp)
+		if !ax && !ay && ((hasLabel(bo.X, "field:Offset") && hasLabel(bo.Y, "field:Limit")) || (hasLabel(bo.Y, "field:Offset") && hasLabel(bo.X, "field:Limit"))) {
+			okHi = true
+		}
+	}
+	if !okHi {
+		probs = append(probs, "the page does not end at offset + limit")
+	}
+	return probs
 }
